@@ -44,8 +44,9 @@ func andGaps(tree *gen.Node, o gen.Opts) []gapInfo {
 		}
 		l, r := pr.Toks[at-1], pr.Toks[at+1]
 		g := gapInfo{id: id, eligible: true, leftKind: n.L.K}
-		// a left operand ending in a bare ~ or ^ would take the next term as its number
-		if l.Class == gen.TSym && (l.Sym == "~" || l.Sym == "^") {
+		// a left operand ending in a bare ~ or ^ would take what follows as its number,
+		// unless that is the keyword NOT, which cannot start a number
+		if l.Class == gen.TSym && (l.Sym == "~" || l.Sym == "^") && !(r.Class == gen.TKw && r.Sym == "NOT") {
 			g.eligible = false
 		}
 		g.demonstrated = g.eligible && l.Class == gen.TTerm && r.Class == gen.TTerm
@@ -107,8 +108,15 @@ func checkC07(c JuxtaCase) (f *report.Failure, accepted bool) {
 		}
 		return nil, true
 	}
-	if allDemo && ee == nil {
-		return report.Failf("juxtaposed-rejected", "explicit %q is accepted but %q (whitespace between two term tokens, the form the README and tests use) is rejected: %v", expl, jux, ej), false
+	if ee == nil {
+		// every juxtaposed gap is eligible (the two operands can be written next to each
+		// other without the tokens running together): the property says the two texts
+		// give the identical tree, so the juxtaposed one has to parse as well
+		form := "whitespace between two term tokens, the form the README and tests use"
+		if !allDemo {
+			form = "an operand that starts with ( + - NOT or ends with a bracket next to the gap"
+		}
+		return report.Failf("juxtaposed-rejected", "explicit %q is accepted but %q (%s) is rejected: %v", expl, jux, form, ej), false
 	}
 	return nil, false
 }
@@ -178,7 +186,7 @@ func TestC07(t *testing.T) {
 	cfg := report.Load()
 	st := report.New("C07", cfg)
 	defer st.Finish(t)
-	st.Rule("query trees as in C05; for each tree every non-empty subset (<= 6 AND nodes) or random subsets of the AND nodes is written as whitespace instead of AND. Oracle: metamorphic pair Parse(explicit text) vs Parse(juxtaposed text): whenever the juxtaposed text is accepted the explicit one is accepted with the identical tree; when every juxtaposed gap has a term token on both sides (the form the README and tests use) the juxtaposed text must be accepted whenever the explicit one is. Gaps after a bare ~ or ^ are not generated. Non-trivial = a juxtaposed gap whose left operand is not a bare word, or >= 2 juxtaposed gaps, or a juxtaposed gap adjacent to OR; distinct by juxtaposed text.")
+	st.Rule("query trees as in C05; for each tree every non-empty subset (<= 6 AND nodes) or random subsets of the AND nodes is written as whitespace instead of AND. Oracle: metamorphic pair Parse(explicit text) vs Parse(juxtaposed text): whenever the juxtaposed text is accepted the explicit one is accepted with the identical tree; the juxtaposed text must be accepted whenever the explicit one is (gaps between two term tokens, the form the README and tests use, are counted separately from gaps next to brackets and prefix operators). Gaps after a bare ~ or ^ are not generated unless NOT follows. Non-trivial = a juxtaposed gap whose left operand is not a bare word, or >= 2 juxtaposed gaps, or a juxtaposed gap adjacent to OR; distinct by juxtaposed text.")
 	st.Assume("C05 vouches for the explicit text", "rejection of juxtaposition next to brackets or before ( + - NOT is not a C07 violation")
 	regress(t, st, "C07")
 	_ = activeFindings(st, "C07")
